@@ -757,3 +757,21 @@ impl<const D: usize> PrecomputedReducedOpeningsTarget<D> {
         }
     }
 }
+
+#[cfg(feature = "verif_hooks")]
+impl<F: RichField + Extendable<D>, const D: usize> CircuitBuilder<F, D> {
+    /// Read-only wrapper for the external verification harness: the private `fri_combine_initial`
+    /// with the reduced openings precomputed exactly as `verify_fri_proof` does.
+    pub fn verif_fri_combine_initial(
+        &mut self,
+        instance: &FriInstanceInfoTarget<D>,
+        proof: &FriInitialTreeProofTarget,
+        openings: &FriOpeningsTarget<D>,
+        alpha: ExtensionTarget<D>,
+        subgroup_x: Target,
+        params: &FriParams,
+    ) -> ExtensionTarget<D> {
+        let pre = PrecomputedReducedOpeningsTarget::from_os_and_alpha(openings, alpha, self);
+        self.fri_combine_initial(instance, proof, alpha, subgroup_x, &pre, params)
+    }
+}
